@@ -63,9 +63,13 @@ func (x *Exec) evalClauseIn(st *State, cl *Clause, pos token.Pos, q string) *Ter
 	if len(bound) > 0 {
 		// facts assumed while evaluating under binders (well-formedness of reads)
 		// must stay inside the quantifier
-		extra := st.pc[mark:]
+		extra := append([]*Term{}, st.pc[mark:]...)
 		if len(extra) > 0 {
-			t = x.b.Implies(x.b.And(extra...), t)
+			if x.skolem {
+				t = x.b.Implies(x.b.And(extra...), t)
+			} else {
+				t = x.b.And(append([]*Term{t}, extra...)...)
+			}
 			st.pc = st.pc[:mark]
 		}
 		if !x.skolem {
@@ -381,7 +385,12 @@ func (x *Exec) evalSpecCall(st *State, e *ast.CallExpr) *Value {
 		}
 		rng := x.b.And(x.b.Le(lo, bv, true), x.b.Lt(bv, hi, true))
 		if name == "all" {
-			return scalarV(boolT, x.b.Forall([]*Term{bv}, x.b.Implies(x.b.And(append([]*Term{rng}, extra...)...), body)))
+			if x.skolem {
+				// being proved: type invariants of the values read may be assumed
+				return scalarV(boolT, x.b.Forall([]*Term{bv}, x.b.Implies(x.b.And(append([]*Term{rng}, extra...)...), body)))
+			}
+			// being assumed: the invariants hold for every index as well
+			return scalarV(boolT, x.b.Forall([]*Term{bv}, x.b.Implies(rng, x.b.And(append([]*Term{body}, extra...)...))))
 		}
 		return scalarV(boolT, x.b.Exists([]*Term{bv}, x.b.And(append([]*Term{rng, body}, extra...)...)))
 	case "allref":
